@@ -31,28 +31,28 @@ T = {
  "C09": ("stateless exhaustive enumeration of part lengths, capacities and prefill; explicit-state search over append histories",
          "Register/authenticate/version responses for every key-handle, certificate and signature length, every remaining-space value and several capacities; histories of up to 3 serialisations into one buffer explored with stateright.",
          "—", "DESIGN.md §4 C09"),
- "C10": ("explicit-state search (stateright) over dispatch histories of a recording mock authenticator",
+ "C10": ("explicit-state search (stateright) over dispatch histories of a recording mock authenticator; stateless enumeration of single dispatches over every single and pair deviation of every request",
          "Every request variant x entry point x handler behaviour, histories up to length 2: exactly one handler call, right handler, unchanged argument, result passed through.",
          "Payload pointer identity is checked on the request object passed to the handler.", "DESIGN.md §4 C10"),
- "C11": ("stateless exhaustive enumeration of all 256 command bytes x payload menu (all 1- and 2-byte payloads, anchors, malformed) against the specification command table",
-         "The domain of the table is finite and is enumerated completely; payload-independence is checked on 65 800 payloads per byte.",
-         "Payload-independence beyond 2-byte payloads rests on anchors and malformed samples.", "DESIGN.md §4 C11"),
- "C12": ("stateless exhaustive enumeration of every bounded member at every length around its limit and every integer at its range boundaries, inside both anchors",
+ "C11": ("stateless exhaustive enumeration of all 256 command bytes x payload menu (all short payloads, anchors, malformed, long payloads up to the message limit) against the specification command table; all 256 bytes through the operation tables",
+         "The domain of the table is finite and is enumerated completely; payload-independence is checked on every payload of up to 2 bytes (thorough: 3 bytes) and on payloads of up to 7 608 bytes behind every byte; 0x41 is compared with 0x0A on all 2^24 three-byte payloads and on every member subset and every pair of value deviations of a CredentialManagement message.",
+         "Payload-independence for long payloads rests on four fillers per length.", "DESIGN.md §4 C11"),
+ "C12": ("stateless exhaustive enumeration of every bounded member at every length around its limit and every integer at its range boundaries, inside both anchors, under every value of one other member, in pairs, and with members in reversed order",
          "accept iff within the declared limit; accepted values are delivered whole (compared with the reference decoder).", "Limits come from spec.rs.", "DESIGN.md §4 C12"),
  "C13": ("stateless exhaustive enumeration of all character-width compositions around the 64-byte cut at every alignment; icon lengths; ill-formed UTF-8 at every position",
          "Reference = longest prefix on a std char boundary; checked stand-alone and inside MakeCredential and CredentialManagement.", "—", "DESIGN.md §4 C13"),
- "C14": ("explicit-state search (stateright): state = list, transition = append one entry; all lists up to a length bound plus long lists with known entries at every position pair",
+ "C14": ("explicit-state search (stateright): state = list, transition = append one entry; all lists up to a length bound plus long lists with known entries at every position pair; stateless enumeration of algorithm identifiers (thorough: all 2^32)",
          "filter(known).take(2) in order for parameters; known formats in order plus unknown flag.", "—", "DESIGN.md §4 C14"),
  "C15": ("explicit-state search over the lattices of every bidirectional type; oracle-free round trips in both directions",
          "decode(encode(v)) == v and encode(decode(b)) == b for canonical b, for every enumerated value of every bidirectional type.", "Loss-free domain only (names <= 64 bytes, no rp icon).", "DESIGN.md §4 C15"),
  "C16": ("exhaustive enumeration of the 9 feature configurations x a deterministic common-member corpus; transcripts compared pairwise",
          "Encode and decode transcripts of every configuration must be identical to cfg-000 on members common to both.", "—", "DESIGN.md §4 C16"),
  "C17": ("stateless exhaustive enumeration of buffer capacities x body sizes x prefill; explicit-state search over serialize histories in one reused buffer",
-         "[00]+body iff it fits else [7F], independent of prior content, for every capacity 1..=128 and transport sizes with bodies swept bytewise across the frontier.",
+         "[00]+body iff it fits else [7F], independent of prior content, for every capacity 1..=320, the transport sizes and 65 535..131 072 with bodies swept bytewise across the frontier.",
          "At (capacity 1, empty-map body) only the disjunction {[00],[7F]} is asserted (DESIGN §5 O1).", "DESIGN.md §4 C17"),
- "C18": ("stateless exhaustive enumeration of every byte value / integer threshold for numeric identifiers and every 1-edit neighbour of every spelling for string identifiers",
+ "C18": ("stateless exhaustive enumeration of every byte value / integer threshold for numeric identifiers and every 1- and 2-edit neighbour of every spelling plus the protocol vocabulary for string identifiers",
          "Identifier tables from the specifications, both directions, nothing else accepted.", "—", "DESIGN.md §4 C18"),
- "C19": ("stateless exhaustive enumeration of structured input families for the arbitrary generators (all periodic inputs, bounded deviations, all short words after each variant prefix)",
+ "C19": ("stateless exhaustive enumeration of structured input families for the arbitrary generators (all periodic inputs, bounded deviations, all short words after each variant prefix, tag / selector bytes, one multi-byte character at every offset)",
          "No fault; every generated request is internally valid (UTF-8, capacities), can be formatted, cloned, compared and dispatched.", "Replaces the quantifier's random strings by exhaustive families.", "DESIGN.md §4 C19"),
 }
 
